@@ -174,7 +174,7 @@ PROPS["C17"] = {
     "tie": ["Goat.Tie.C17"],
     "theorems": ["no_spoof_forwarded", "no_spoof_forwarded_fn", "bad_source_ignored", "forward_never_panics", "no_badSource_panic", "cmdRpc_no_panic", "serve_step_never_blocks", "serve_step_isolated",
                  "reattach_safe", "failed_conn_removed", "failure_report_enabled", "cancel_terminates_all", "cancel_progress", "cancel_terminates_all_global",
-                 "bad_badSourceIsIgnored", "bad_badSourceIsIgnored_lts", "bad_removeComparesIdentity", "bad_errReportSelectsOnCtx"],
+                 "bad_badSourceIsIgnored", "bad_badSourceIsIgnored_lts", "bad_removeComparesIdentity", "bad_errReportSelectsOnCtx", "bad_emptyNextIsNoRoute"],
     "rule": "one case per scripted scenario step sequence (spoof matrix, bad-peer roles, re-attach orders, random mixes), each also run cancelled after each step; non-trivial = every scenario",
     "modelled_not_verified": COMMON_MNV,
     "assumptions": ["I6"],
